@@ -128,6 +128,9 @@ def run_case(ctx, pydsdl, mon, u, text_ok, seed, workdir, p):
             shutil.rmtree(d, ignore_errors=True)
     else:
         objs = GT.construct_universe(pydsdl, u)
+    if seed % 4 == 0:
+        objs = GT.with_service_sections(pydsdl, u, objs, seed)
+        ctx.cls("service-sections")
     cd = RC.Codec(u)
     idx = len(u) - 1 if rng.random() < 0.7 else rng.randrange(len(u))
     if GV.fixed_elements(cd, ("ref", idx)) > 2000:
